@@ -11,6 +11,42 @@ import TsVerif.C19.Timed
 > process dies at any point while compiling, later loads still succeed within bounded time and
 > never load a stale or truncated library.
 
+## Clause map (phrase of the property text → theorems)
+
+Marks: **proved** = kernel-checked statement about the transition system of `Model.lean`, which is tied
+to `loader.rs` by hook-controlled schedules (model predicts every announced point, result and file
+left) and by free-running races (outcome ∈ model's reachable outcomes); **partial (H)** = proved under
+the stated hypothesis H; **judged only** = no theorem, the Lean judge runs on every real outcome;
+**assumed** = semantics of the OS / environment that neither the model nor the harness can establish.
+
+| # | phrase | theorems | mark |
+|---|---|---|---|
+| 1 | "when several threads or processes load the same grammar at once" | every theorem quantifies over `s0.procs` of ANY length and over `Reach` (any caller, any enabled action, any order) or over an arbitrary scheduler `σ : ℕ → caller × action` (`execC`); `mkInit_is_init` for `n` callers | proved for any N; threads and processes are the same `Proc` (the protocol uses only files) — real runs: 1–4 processes × 1–3 threads, n ≤ 6 membership-checked, above judged only |
+| 2 | "with the compiled library absent or older than its sources" | `Init` admits library absent / stale / fresh (any `lib` that is complete), leftover lock, leftover temps; the staleness test itself: `needs_recompile_exact`, `check_is_exact_test`, `wellTimed_after_build` (Timed.lean) | proved; partial (`WellTimed`: clock discipline — **assumed**); refuted at coarser resolution: `whole_seconds_misses_same_second` |
+| 3 | "every call that returns success yields a complete library built from the current sources" | `safety` (every `done (ok v)` has `v = src`), `no_partial` (the file is complete), together per tick in `c19_full_strength`; judge: `judge_safe_of_model` | proved for `recheck` with or without compile errors and for `orig` without (`Cfg.safe`); **refuted** for `orig` with compile errors: `safety_compile_error` (the defect fixed in 8957f32) |
+| 4 | "no caller ever observes a partially written file" | `no_partial`: in every reachable state the file at the library path is complete and nobody ends with `partialLib` | proved; rests on **assumed** atomic `rename(2)` and "`cc` writes only its temp path" |
+| 5 | "if a process dies at any point while compiling" | `crash` is enabled at EVERY non-finished program point (not only while compiling); `Reach`/`execC` place crashes anywhere, any number of them | proved (quantified); **assumed**: a dead process takes no further step and cleans nothing up |
+| 6 | "later loads still succeed" | `recovery_recheck`, `recovery_recheck_failing`, `c19_full_strength` (second part), `liveness_with_crashes`, `progressC_iff` (fair ⇔ the execution becomes quiescent), `completion_exists`; a later loader = a caller whose first step comes late in `σ` | proved for `recheck`; **refuted** for `orig`: `stale_lock_never_recovers`, `crash_while_holding_is_permanent`, `leftover_lock_is_stuck` |
+| 7 | "within bounded time" | `recheck_bounded` (every execution, crashes included, has at most `mu c s` steps), `mu_init` (closed form of the bound for `n` callers), `wait_free`/`bounded_termination` (`orig`: `K + 7` own steps), `no_orphan_lock` | proved; time is abstract (**assumed**: the `K`-th unsuccessful poll = deadline passed; real regimes 0 ms / 10 min / 30 s) |
+| 8 | "and never load a stale or truncated library" | 3 + 4 hold in every reachable state, after any crashes; `safety`'s `loading → Fresh` | proved |
+| 9 | quantifier: "all crash points between those steps, cache states (…leftover lock, leftover temp file), with and without an external scanner" | crash points: 5; cache states: `Init`, `mkInit_is_init`; scanner: `src` is the version of the whole source set, `needsRecompile` ranges over every source | proved (model); real: crash injected at every hook point, all five cache states, scanner on/off × `stalekind` × `gap` |
+
+## Gaps found when re-reading the statements against the text
+
+* All theorems are about the model.  Its steps are the loader's file-system actions at hook-point
+  granularity; what is observed and what is assumed per step is tabulated in `notes/C19.md`.
+* `safety` needs `Cfg.safe`; every reachable configuration of the committed protocol satisfies it
+  (`Or.inr`), examples included.  `Init` is satisfiable (`mkInit_is_init`), `Quiescent` states are
+  reachable from every state (`completion_exists`), `ProgressC` is satisfiable and excludes only stalling
+  schedulers (`progressC_iff`, added in this pass — before, the fairness hypothesis could have been
+  suspected of being unsatisfiable with crashes).
+* The sources are constant during a run (`reach_src`): "current sources" = the sources at the check;
+  a source rewritten *while* loaders run is outside the statement (boundary convention).
+* "bounded time" is a bound on steps, not seconds.
+* `orig` clauses are kept as refutations only; `liveness_ok` for `orig` stays OPEN (moot since the fix).
+
+## Theorem index by clause (older table)
+
 All statements are about the transition system of `Model.lean` (any number of callers, any
 interleaving of the atomic steps, a crash possible before every step).
 
@@ -592,6 +628,59 @@ theorem liveness_with_crashes (c : Cfg) (hv : c.variant = .recheck) (s0 : State)
       rcases execC_mu_step c hv s0 σ j with h | h
       · exact absurd h hne
       · exact ih (j + 1) (by omega)
+
+/-- In a quiescent state nothing at all is enabled, crashes included (everybody has finished). -/
+theorem quiescent_stuck {c : Cfg} {s : State} (hq : Quiescent c s) (p : Nat) (a : Act) : step c s p a = none := by
+  by_cases ha : a = .crash
+  · subst ha
+    unfold step
+    cases hp : s.procs[p]? with
+    | none => rfl
+    | some pr =>
+      have hf := quiescent_finished hq p pr hp
+      cases hpc : pr.pc <;> simp [hpc, Pc.finished] at hf ⊢
+  · exact hq p a ha
+
+theorem execC_const_after_quiescent (c : Cfg) (s0 : State) (σ : Nat → Nat × Act) (T : Nat)
+    (hq : Quiescent c (execC c s0 σ T)) : ∀ d, execC c s0 σ (T + d) = execC c s0 σ T := by
+  intro d
+  induction d with
+  | zero => rfl
+  | succ d ih =>
+    rw [← Nat.add_assoc]
+    simp only [execC]
+    rw [ih, quiescent_stuck hq]
+    rfl
+
+/-- The fairness predicate is exactly "the execution does not stall before it is finished": a scheduler
+is fair iff its execution becomes quiescent.  So `ProgressC` excludes nothing but schedulers that stop
+scheduling enabled steps forever, and it is satisfiable from every state (`completion_exists`). -/
+theorem progressC_iff (c : Cfg) (hv : c.variant = .recheck) (s0 : State) (σ : Nat → Nat × Act) :
+    ProgressC c s0 σ ↔ ∃ T, Quiescent c (execC c s0 σ T) := by
+  constructor
+  · exact liveness_with_crashes c hv s0 σ
+  · rintro ⟨T, hq⟩ i hni
+    apply Classical.byContradiction
+    intro hno
+    have hconst : ∀ d, execC c s0 σ (i + d) = execC c s0 σ i := by
+      intro d
+      induction d with
+      | zero => rfl
+      | succ d ih =>
+        have : execC c s0 σ (i + d + 1) = execC c s0 σ (i + d) := by
+          apply Classical.byContradiction
+          intro hne
+          exact hno ⟨i + d, by omega, hne⟩
+        rw [← Nat.add_assoc, this, ih]
+    rcases Nat.lt_or_ge i T with hlt | hge
+    · have := hconst (T - i)
+      rw [show i + (T - i) = T by omega] at this
+      rw [this] at hq
+      exact hni hq
+    · have := execC_const_after_quiescent c s0 σ T hq (i - T)
+      rw [show T + (i - T) = i by omega] at this
+      rw [← this] at hq
+      exact hni hq
 
 /-- **C19 at full strength, for the committed protocol** (`recheck`: re-check after waiting, steal a
 lock that outlived the timeout).  For any number `N` of callers, any initial cache (library absent /
